@@ -86,9 +86,11 @@ try:
             channel,
             force_as,
             seed,
+            utt2offset=None,
         ):
             super(_FeatureProcessorDataset, self).__init__()
             self.utt_path = tuple(utt2path.items())
+            self.utt2offset = utt2offset
             self.preprocessors = preprocessors
             self.computer = computer
             self.postprocessors = postprocessors
@@ -101,8 +103,11 @@ try:
 
         @torch.no_grad()
         def __getitem__(self, idx):
-            torch.manual_seed(self.seed + idx)
             utt_id, path = self.utt_path[idx]
+            if self.utt2offset is None:
+                torch.manual_seed(self.seed + idx)
+            else:
+                torch.manual_seed(self.seed + self.utt2offset[utt_id])
             try:
                 signal = read_signal(
                     path, dtype=np.float64, force_as=self.force_as, key=utt_id
@@ -540,6 +545,9 @@ def signals_to_torch_feat_dir(args=None):
             )
             return 1
         utt2path[utt_id] = " ".join(ls[1:])
+    # seed offsets are fixed before the manifest removes anything so that a resumed
+    # run seeds each remaining utterance as an uninterrupted run would have
+    utt2offset = dict((utt_id, idx) for (idx, utt_id) in enumerate(utt2path))
     if options.manifest is not None:
         options.manifest.seek(0)
         for line in options.manifest:
@@ -593,6 +601,7 @@ def signals_to_torch_feat_dir(args=None):
         options.channel,
         options.force_as,
         seed,
+        utt2offset,
     )
     loader = torch.utils.data.DataLoader(dataset, num_workers=options.num_workers)
     if not os.path.isdir(options.dir):
